@@ -57,7 +57,7 @@ theorem sortByKey_sorted (l : List Entry) (hs : Sorted l) : sortByKey l = l := b
     cases l with
     | nil => rfl
     | cons x xs =>
-      have := hs.1 x List.mem_cons_self
+      have := Nat.le_of_lt (hs.1 x List.mem_cons_self)
       simp only [insertByKey, this, if_true]
 
 /-- **save_load_id (bucket).** `load_index (save_index b) = b` for a bucket whose sorted run is
